@@ -452,6 +452,7 @@ func writeEvidence(p *Property, tier string, batch uint64, agg *batchAgg, wall t
 	probes := map[string]int{}
 	fps := map[string]bool{}
 	states := map[string]bool{}
+	patterns := map[string]bool{}
 	var blocks, txs, txok, ff int
 	var simT float64
 	var samples []string
@@ -467,6 +468,9 @@ func writeEvidence(p *Property, tier string, batch uint64, agg *batchAgg, wall t
 		}
 		for _, s := range r.States {
 			states[s] = true
+		}
+		for _, s := range r.BlockPatterns {
+			patterns[s] = true
 		}
 		blocks += r.Blocks
 		txs += r.Txs
@@ -499,6 +503,8 @@ func writeEvidence(p *Property, tier string, batch uint64, agg *batchAgg, wall t
 		"faults_fired":        faults,
 		"probes":              probes,
 		"distinct_states":     len(states),
+		"distinct_block_interleavings": len(patterns),
+		"interleaving_measure": "distinct ordered lists of (message kind, outcome code, delivery kind, injected fault) inside one block, over all blocks of all runs",
 		"fault_free_runs":     ff,
 		"known_findings_hit":  knownHits,
 		"components":          map[string]interface{}{"real": realComponents, "stub": stubComponents},
